@@ -7,7 +7,9 @@ written gives the in-memory record, for every record in normal form; the tables 
 element classes have unique names.
 -/
 import EdxmlModel.Ontology.XmlCodec
+import EdxmlModel.Ontology.XmlTree
 import EdxmlProps.Lemmas.Numerals
+import EdxmlProps.Lemmas.XmlTree
 namespace EdxmlProps.C08
 open Edxml Edxml.Gate Edxml.Codec
 
@@ -214,6 +216,409 @@ theorem decode_normal (table : List ASpec) (a : Attrs) (r : Rec) (h : decode tab
     | none => rw [hc] at hrb; cases hrb
     | some c => exact ⟨c, rfl, canonVal_idem _ _ _ hc⟩
 
+
+/-! ### the second cycle is the identity, for every element the parser accepts -/
+
+/-- what `create_from_xml` holds for each attribute after reading `a` -/
+theorem decode_lookup : ∀ (table : List ASpec), (table.map (·.name)).Nodup → ∀ (a : Attrs) (r : Rec),
+    decode table a = some r → ∀ s ∈ table, readBack a s = some (lookupR r s.name)
+  | [], _, _, _, _, s, hs => by cases hs
+  | t :: ts, hn, a, r, h, s, hs => by
+    simp only [List.map_cons, List.nodup_cons, List.mem_map, not_exists, not_and] at hn
+    unfold decode at h
+    rw [List.mapM_cons] at h
+    cases ht : readBack a t with
+    | none => rw [ht] at h; cases h
+    | some v =>
+      rw [ht] at h
+      cases hrest : ts.mapM (fun s => (readBack a s).map fun v => (s.name, v)) with
+      | none => rw [hrest] at h; cases h
+      | some rs =>
+        rw [hrest] at h
+        have h' : r = (t.name, v) :: rs := by
+          have : some ((t.name, v) :: rs) = some r := h
+          exact (Option.some.inj this).symm
+        subst h'
+        rcases List.mem_cons.mp hs with rfl | hs'
+        · rw [ht]; unfold lookupR; simp
+        · have hne : (t.name == s.name) = false := by
+            have := hn.1 s hs'
+            simpa using fun e => this e.symm
+          have ih := decode_lookup ts hn.2 a rs (by unfold decode; exact hrest) s hs'
+          rw [ih]
+          unfold lookupR
+          simp [List.find?_cons, hne]
+
+theorem decode_of_all_some (table : List ASpec) (a : Attrs)
+    (h : ∀ s ∈ table, ∃ v, readBack a s = some v) : ∃ r, decode table a = some r := by
+  unfold decode
+  induction table with
+  | nil => exact ⟨[], rfl⟩
+  | cons t ts ih =>
+    obtain ⟨v, hv⟩ := h t (by simp)
+    obtain ⟨rs, hrs⟩ := ih (fun s hs => h s (by simp [hs]))
+    refine ⟨(t.name, v) :: rs, ?_⟩
+    rw [List.mapM_cons, hv, hrs]
+    rfl
+
+/-- what the parser requires of the element beyond the attribute kinds: the attributes that
+`generate_xml` leaves out when they are empty, although a parser insists on them, are not empty
+(the EDXML schema demands a name, display names, a description, a summary, a story and a version of
+every event type) -/
+def NonEmptyRequired (table : List ASpec) (a : Attrs) : Prop :=
+  ∀ s ∈ table, s.rule = .falsyReq → ∀ x, lookupA a s.name = some x → canonVal s.kind x ≠ some ""
+
+/-- attributes that are written only together with another one are of the "always written" kind and
+depend on an unguarded plain string attribute of the same table whose default is the empty string
+(the attribute extension of a concept association) -/
+def GuardsOk (table : List ASpec) : Prop :=
+  ∀ s ∈ table, ∀ g, s.onlyIf = some g → (∃ d, s.rule = .always d) ∧
+    ∃ sg ∈ table, sg.name = g ∧ sg.onlyIf = none ∧ sg.rule = .dflt "" ∧ sg.kind = .str
+
+/-- defaults are values of their kind, canonically written -/
+def DefaultsCanon (table : List ASpec) : Prop :=
+  ∀ s ∈ table, ∀ d, (s.rule = .dflt d ∨ s.rule = .always d) → canonVal s.kind d = some d
+
+theorem held_canonical (table : List ASpec) (hn : (table.map (·.name)).Nodup) (hd : DefaultsCanon table)
+    (a : Attrs) (r : Rec) (h : decode table a = some r) :
+    ∀ s ∈ table, ∀ x, lookupR r s.name = some x → canonVal s.kind x = some x := by
+  intro s hs x hx
+  have h1 := decode_lookup table hn a r h s hs
+  rw [hx] at h1
+  unfold readBack at h1
+  cases hla : lookupA a s.name with
+  | some y =>
+    rw [hla] at h1
+    simp only at h1
+    cases hcv : canonVal s.kind y with
+    | none => rw [hcv] at h1; cases h1
+    | some c =>
+      rw [hcv] at h1
+      simp only [Option.map_some, Option.some.injEq] at h1
+      subst h1
+      exact canonVal_idem _ _ _ hcv
+  | none =>
+    rw [hla] at h1
+    simp only at h1
+    cases hr : s.rule with
+    | req => rw [hr] at h1; cases h1
+    | falsyReq => rw [hr] at h1; cases h1
+    | opt => rw [hr] at h1; simp at h1
+    | dfltNone d => rw [hr] at h1; simp at h1
+    | falsyOpt => rw [hr] at h1; simp at h1
+    | dflt d =>
+      rw [hr] at h1
+      simp only [Option.some.injEq] at h1
+      subst h1
+      exact hd s hs _ (Or.inl hr)
+    | always d =>
+      rw [hr] at h1
+      simp only [Option.some.injEq] at h1
+      subst h1
+      exact hd s hs _ (Or.inr hr)
+
+
+/-- what is held for an attribute whose class always has a value for it -/
+theorem held_some (table : List ASpec) (hn : (table.map (·.name)).Nodup) (a : Attrs) (r : Rec)
+    (h : decode table a = some r) (s : ASpec) (hs : s ∈ table)
+    (hr : s.rule = .req ∨ s.rule = .falsyReq ∨ (∃ d, s.rule = .dflt d) ∨ (∃ d, s.rule = .always d)) :
+    ∃ x, lookupR r s.name = some x := by
+  have h1 := decode_lookup table hn a r h s hs
+  unfold readBack at h1
+  cases hla : lookupA a s.name with
+  | some y =>
+    rw [hla] at h1
+    simp only at h1
+    cases hcv : canonVal s.kind y with
+    | none => rw [hcv] at h1; cases h1
+    | some c =>
+      rw [hcv] at h1
+      simp only [Option.map_some, Option.some.injEq] at h1
+      exact ⟨c, h1.symm⟩
+  | none =>
+    rw [hla] at h1
+    simp only at h1
+    rcases hr with hr | hr | ⟨d, hr⟩ | ⟨d, hr⟩ <;> rw [hr] at h1 <;> simp at h1
+    · exact ⟨d, h1.symm⟩
+    · exact ⟨d, h1.symm⟩
+
+/-- reading back one attribute of what was serialized: it succeeds, a record that holds the value
+read and agrees on the guard writes the attribute as before, and an unguarded attribute with a
+default is read as it was held -/
+theorem reread (table : List ASpec) (hn : (table.map (·.name)).Nodup) (hg : GuardsOk table) (hd : DefaultsCanon table)
+    (a : Attrs) (hne : NonEmptyRequired table a) (r : Rec) (h : decode table a = some r) (s : ASpec) (hs : s ∈ table) :
+    ∃ v', readBack (encode table r) s = some v' ∧
+      (∀ r' : Rec, lookupR r' s.name = v' → guardOpen r' s = guardOpen r s → written r' s = written r s) ∧
+      ((∃ d, s.rule = .dflt d) → guardOpen r s = true → v' = lookupR r s.name) := by
+  have hw := written_value_is_read_back table hn r s hs
+  have hcan := held_canonical table hn hd a r h s hs
+  unfold readBack
+  rw [hw]
+  cases hgo : guardOpen r s with
+  | false =>
+    -- a closed guard: the attribute is of the always-written kind and is left out
+    have hoi : ∃ g, s.onlyIf = some g := by
+      unfold guardOpen at hgo
+      cases ho : s.onlyIf with
+      | none => rw [ho] at hgo; cases hgo
+      | some g => exact ⟨g, rfl⟩
+    obtain ⟨g, hgq⟩ := hoi
+    obtain ⟨⟨d, hrd⟩, _⟩ := hg s hs g hgq
+    have hwn : written r s = none := by unfold written; simp [hgo]
+    rw [hwn]
+    refine ⟨some d, by simp [hrd], ?_, ?_⟩
+    · intro r' _ hgo'
+      unfold written
+      rw [hgo']
+      simp
+    · rintro ⟨d', hd'⟩ _
+      rw [hrd] at hd'
+      cases hd'
+  | true =>
+    cases hr : s.rule with
+    | req =>
+      obtain ⟨x, hx⟩ := held_some table hn a r h s hs (Or.inl hr)
+      have hwx : written r s = some x := by unfold written; simp [hgo, hr, hx]
+      rw [hwx]
+      refine ⟨some x, by simp [hcan x hx], ?_, ?_⟩
+      · intro r' hv' hgo'
+        unfold written
+        rw [hgo']
+        simp_all
+      · rintro ⟨d', hd'⟩ _; cases hd'
+    | opt =>
+      cases hv : lookupR r s.name with
+      | none =>
+        have hwx : written r s = none := by unfold written; simp [hgo, hr, hv]
+        rw [hwx]
+        refine ⟨none, by simp, ?_, ?_⟩
+        · intro r' hv' hgo'
+          unfold written
+          rw [hgo']
+          simp_all
+        · rintro ⟨d', hd'⟩ _; cases hd'
+      | some x =>
+        have hwx : written r s = some x := by unfold written; simp [hgo, hr, hv]
+        rw [hwx]
+        refine ⟨some x, by simp [hcan x hv], ?_, ?_⟩
+        · intro r' hv' hgo'
+          unfold written
+          rw [hgo']
+          simp_all
+        · rintro ⟨d', hd'⟩ _; cases hd'
+    | dflt d =>
+      obtain ⟨x, hx⟩ := held_some table hn a r h s hs (Or.inr (Or.inr (Or.inl ⟨d, hr⟩)))
+      by_cases hxd : x = d
+      · subst hxd
+        have hwx : written r s = none := by unfold written; simp [hgo, hr, hx]
+        rw [hwx]
+        refine ⟨some x, by simp, ?_, ?_⟩
+        · intro r' hv' hgo'
+          unfold written
+          rw [hgo']
+          simp_all
+        · intro _ _; exact hx.symm
+      · have hb : (x == d) = false := by simpa using hxd
+        have hwx : written r s = some x := by unfold written; simp [hgo, hr, hx, hb]
+        rw [hwx]
+        refine ⟨some x, by simp [hcan x hx], ?_, ?_⟩
+        · intro r' hv' hgo'
+          unfold written
+          rw [hgo']
+          simp_all
+        · intro _ _; exact hx.symm
+    | always d =>
+      obtain ⟨x, hx⟩ := held_some table hn a r h s hs (Or.inr (Or.inr (Or.inr ⟨d, hr⟩)))
+      have hwx : written r s = some x := by unfold written; simp [hgo, hr, hx]
+      rw [hwx]
+      refine ⟨some x, by simp [hcan x hx], ?_, ?_⟩
+      · intro r' hv' hgo'
+        unfold written
+        rw [hgo']
+        simp_all
+      · rintro ⟨d', hd'⟩ _; cases hd'
+    | dfltNone d =>
+      cases hv : lookupR r s.name with
+      | none =>
+        have hwx : written r s = none := by unfold written; simp [hgo, hr, hv]
+        rw [hwx]
+        refine ⟨none, by simp, ?_, ?_⟩
+        · intro r' hv' hgo'
+          unfold written
+          rw [hgo']
+          simp_all
+        · rintro ⟨d', hd'⟩ _; cases hd'
+      | some x =>
+        by_cases hxd : x = d
+        · subst hxd
+          have hwx : written r s = none := by unfold written; simp [hgo, hr, hv]
+          rw [hwx]
+          refine ⟨none, by simp, ?_, ?_⟩
+          · intro r' hv' hgo'
+            unfold written
+            rw [hgo']
+            simp_all
+          · rintro ⟨d', hd'⟩ _; cases hd'
+        · have hb : (x == d) = false := by simpa using hxd
+          have hwx : written r s = some x := by unfold written; simp [hgo, hr, hv, hb]
+          rw [hwx]
+          refine ⟨some x, by simp [hcan x hv], ?_, ?_⟩
+          · intro r' hv' hgo'
+            unfold written
+            rw [hgo']
+            simp_all
+          · rintro ⟨d', hd'⟩ _; cases hd'
+    | falsyReq =>
+      obtain ⟨x, hx⟩ := held_some table hn a r h s hs (Or.inr (Or.inl hr))
+      -- the value held came from the element (a missing attribute is an error) and is not empty
+      have hxne : x ≠ "" := by
+        intro hxe
+        have h1 := decode_lookup table hn a r h s hs
+        rw [hx] at h1
+        unfold readBack at h1
+        cases hla : lookupA a s.name with
+        | none => rw [hla, hr] at h1; cases h1
+        | some y =>
+          rw [hla] at h1
+          simp only at h1
+          cases hcv : canonVal s.kind y with
+          | none => rw [hcv] at h1; cases h1
+          | some c =>
+            rw [hcv] at h1
+            simp only [Option.map_some, Option.some.injEq] at h1
+            subst h1
+            exact hne s hs hr y hla (by rw [hcv, hxe])
+      have hb : (x == "") = false := by simpa using hxne
+      have hwx : written r s = some x := by unfold written; simp [hgo, hr, hx, hb]
+      rw [hwx]
+      refine ⟨some x, by simp [hcan x hx], ?_, ?_⟩
+      · intro r' hv' hgo'
+        unfold written
+        rw [hgo']
+        simp_all
+      · rintro ⟨d', hd'⟩ _; cases hd'
+    | falsyOpt =>
+      cases hv : lookupR r s.name with
+      | none =>
+        have hwx : written r s = none := by unfold written; simp [hgo, hr, hv]
+        rw [hwx]
+        refine ⟨none, by simp, ?_, ?_⟩
+        · intro r' hv' hgo'
+          unfold written
+          rw [hgo']
+          simp_all
+        · rintro ⟨d', hd'⟩ _; cases hd'
+      | some x =>
+        by_cases hxe : x = ""
+        · subst hxe
+          have hwx : written r s = none := by unfold written; simp [hgo, hr, hv]
+          rw [hwx]
+          refine ⟨none, by simp, ?_, ?_⟩
+          · intro r' hv' hgo'
+            unfold written
+            rw [hgo']
+            simp_all
+          · rintro ⟨d', hd'⟩ _; cases hd'
+        · have hb : (x == "") = false := by simpa using hxe
+          have hwx : written r s = some x := by unfold written; simp [hgo, hr, hv, hb]
+          rw [hwx]
+          refine ⟨some x, by simp [hcan x hv], ?_, ?_⟩
+          · intro r' hv' hgo'
+            unfold written
+            rw [hgo']
+            simp_all
+          · rintro ⟨d', hd'⟩ _; cases hd'
+
+
+/-- **C08, repeating the cycle is byte-identical (attribute level).** For every rule table with
+unique names, well-formed guards and canonical defaults, and every element the parser accepts:
+parsing what was serialized succeeds and serializes to the very same attributes. -/
+theorem cycle_idempotent (table : List ASpec) (hn : (table.map (·.name)).Nodup) (hg : GuardsOk table)
+    (hd : DefaultsCanon table) (a : Attrs) (hne : NonEmptyRequired table a) (r : Rec) (h : decode table a = some r) :
+    ∃ r', decode table (encode table r) = some r' ∧ encode table r' = encode table r := by
+  have hre := reread table hn hg hd a hne r h
+  obtain ⟨r', hr'⟩ := decode_of_all_some table (encode table r) (fun s hs => by
+    obtain ⟨v', hv', _⟩ := hre s hs
+    exact ⟨v', hv'⟩)
+  refine ⟨r', hr', ?_⟩
+  have hlk' := decode_lookup table hn (encode table r) r' hr'
+  -- r' holds what was read
+  have hval : ∀ s ∈ table, ∀ v', readBack (encode table r) s = some v' → lookupR r' s.name = v' := by
+    intro s hs v' hv'
+    have := hlk' s hs
+    rw [hv'] at this
+    exact (Option.some.inj this).symm
+  -- the guards are open in r' exactly when they are in r
+  have hguard : ∀ s ∈ table, guardOpen r' s = guardOpen r s := by
+    intro s hs
+    unfold guardOpen
+    cases ho : s.onlyIf with
+    | none => rfl
+    | some g =>
+      obtain ⟨_, sg, hsg, hname, hoi, hrule, _⟩ := hg s hs g ho
+      obtain ⟨v', hv', _, hC⟩ := hre sg hsg
+      have hopen : guardOpen r sg = true := by unfold guardOpen; rw [hoi]
+      have h1 := hC ⟨"", hrule⟩ hopen
+      have h2 := hval sg hsg v' hv'
+      simp only
+      rw [← hname, h2, h1]
+  have hwr : ∀ s ∈ table, written r' s = written r s := by
+    intro s hs
+    obtain ⟨v', hv', hB, _⟩ := hre s hs
+    exact hB r' (hval s hs v' hv') (hguard s hs)
+  unfold encode
+  clear hre hr' hlk' hval hguard h hne hn hg hd
+  induction table with
+  | nil => rfl
+  | cons t ts ih =>
+    simp only [List.filterMap_cons]
+    rw [hwr t (by simp), ih (fun s hs => hwr s (by simp [hs]))]
+
+theorem tables_guards_ok :
+    GuardsOk objectTypeTable ∧ GuardsOk conceptTable ∧ GuardsOk sourceTable ∧ GuardsOk eventTypeTable ∧
+    GuardsOk propertyTable ∧ GuardsOk assocTable ∧ GuardsOk attachmentTable ∧ GuardsOk parentTable ∧
+    ∀ t ∈ ["inter", "intra", "other", "name", "description", "container", "original"], GuardsOk (relationTable t) := by
+  have noGuard : ∀ (tb : List ASpec), (tb.all fun s => s.onlyIf.isNone) = true → GuardsOk tb := by
+    intro tb h s hs g hg
+    have := List.all_eq_true.mp h s hs
+    rw [hg] at this
+    cases this
+  refine ⟨noGuard _ (by decide), noGuard _ (by decide), noGuard _ (by decide), noGuard _ (by decide),
+    noGuard _ (by decide), ?_, noGuard _ (by decide), noGuard _ (by decide), ?_⟩
+  · intro s hs g hg
+    have hext : (⟨"attr-extension", .str, .dflt "", none⟩ : ASpec) ∈ assocTable := by simp [assocTable]
+    simp only [assocTable, List.mem_cons, List.mem_nil_iff, or_false] at hs
+    rcases hs with rfl | rfl | rfl | rfl | rfl | rfl <;> simp at hg
+    · subst hg
+      exact ⟨⟨"", rfl⟩, _, hext, rfl, rfl, rfl, rfl⟩
+    · subst hg
+      exact ⟨⟨"", rfl⟩, _, hext, rfl, rfl, rfl, rfl⟩
+  · intro t ht
+    apply noGuard
+    simp only [List.mem_cons, List.mem_nil_iff, or_false] at ht
+    rcases ht with rfl | rfl | rfl | rfl | rfl | rfl | rfl <;> decide
+
+theorem defaultsCanon_of_check (tb : List ASpec)
+    (h : (tb.all fun s => match s.rule with
+      | .dflt d => canonVal s.kind d == some d
+      | .always d => canonVal s.kind d == some d
+      | _ => true) = true) : DefaultsCanon tb := by
+  intro s hs d hr
+  have := List.all_eq_true.mp h s hs
+  rcases hr with hr | hr <;> rw [hr] at this <;> simpa using this
+
+theorem tables_defaults_canon :
+    DefaultsCanon objectTypeTable ∧ DefaultsCanon conceptTable ∧ DefaultsCanon sourceTable ∧ DefaultsCanon eventTypeTable ∧
+    DefaultsCanon propertyTable ∧ DefaultsCanon assocTable ∧ DefaultsCanon attachmentTable ∧ DefaultsCanon parentTable ∧
+    ∀ t ∈ ["inter", "intra", "other", "name", "description", "container", "original"], DefaultsCanon (relationTable t) := by
+  refine ⟨defaultsCanon_of_check _ (by decide), defaultsCanon_of_check _ (by decide), defaultsCanon_of_check _ (by decide),
+    defaultsCanon_of_check _ (by decide), defaultsCanon_of_check _ (by decide), defaultsCanon_of_check _ (by decide),
+    defaultsCanon_of_check _ (by decide), defaultsCanon_of_check _ (by decide), ?_⟩
+  intro t ht
+  apply defaultsCanon_of_check
+  simp only [List.mem_cons, List.mem_nil_iff, or_false] at ht
+  rcases ht with rfl | rfl | rfl | rfl | rfl | rfl | rfl <;> decide
+
 /-- the rule tables of the SDK's element classes have unique attribute names -/
 theorem tables_have_unique_names :
     (objectTypeTable.map (·.name)).Nodup ∧ (conceptTable.map (·.name)).Nodup ∧ (sourceTable.map (·.name)).Nodup ∧
@@ -222,6 +627,289 @@ theorem tables_have_unique_names :
     (∀ t ∈ ["inter", "intra", "other", "name", "description", "container", "original"],
       ((relationTable t).map (·.name)).Nodup) := by
   decide
+
+
+/-- every rule table of the SDK is well-formed in the three ways `cycle_idempotent` needs -/
+theorem tableOf_ok (tag : String) (t : List ASpec) (h : tableOf tag = some t) :
+    (t.map (·.name)).Nodup ∧ GuardsOk t ∧ DefaultsCanon t := by
+  obtain ⟨n1, n2, n3, n4, n5, n6, n7, n8, n9⟩ := tables_have_unique_names
+  obtain ⟨g1, g2, g3, g4, g5, g6, g7, g8, g9⟩ := tables_guards_ok
+  obtain ⟨d1, d2, d3, d4, d5, d6, d7, d8, d9⟩ := tables_defaults_canon
+  unfold tableOf at h
+  split at h
+  · cases h; exact ⟨n1, g1, d1⟩
+  · cases h; exact ⟨n2, g2, d2⟩
+  · cases h; exact ⟨n3, g3, d3⟩
+  · cases h; exact ⟨n4, g4, d4⟩
+  · cases h; exact ⟨n5, g5, d5⟩
+  · cases h; exact ⟨n6, g6, d6⟩
+  · cases h; exact ⟨n7, g7, d7⟩
+  · cases h; exact ⟨n8, g8, d8⟩
+  · split at h
+    · rename_i hc
+      cases h
+      have hm : tag ∈ ["inter", "intra", "other", "name", "description", "container", "original"] := by
+        simpa using hc
+      exact ⟨n9 tag hm, g9 tag hm, d9 tag hm⟩
+    · cases h
+
+/-- **C08: repeating the parse-serialize cycle changes nothing**, for every element kind of the
+ontology and every element the parser accepts (whose event type attributes the schema requires are
+not empty): `generate_xml(create_from_xml(x))` is a fixed point of the cycle -/
+theorem cycle_twice (tag : String) (a b : Attrs)
+    (hne : ∀ t, tableOf tag = some t → NonEmptyRequired t a) (h : cycle tag a = some b) : cycle tag b = some b := by
+  unfold cycle at h ⊢
+  cases ht : tableOf tag with
+  | none => rw [ht] at h; cases h
+  | some t =>
+    rw [ht] at h
+    simp only [Option.bind_eq_bind, Option.bind_some] at h ⊢
+    cases hd : decode t a with
+    | none => rw [hd] at h; cases h
+    | some r =>
+      rw [hd] at h
+      simp only [Option.bind_some, Option.pure_def, Option.some.injEq] at h
+      subst h
+      obtain ⟨hn, hg, hdc⟩ := tableOf_ok tag t ht
+      obtain ⟨r', h1, h2⟩ := cycle_idempotent t hn hg hdc a (hne t ht) r hd
+      rw [h1]
+      simp only [Option.bind_some, Option.pure_def, Option.some.injEq]
+      exact h2
+
+
+/-! ### the element tree: nesting and order -/
+
+open EdxmlProps.XmlTree
+
+theorem nonEmptyRequired_of_no_falsy (t : List ASpec) (a : Attrs)
+    (h : (t.all fun s => s.rule != .falsyReq) = true) : NonEmptyRequired t a := by
+  intro s hs hr
+  have := List.all_eq_true.mp h s hs
+  rw [hr] at this
+  simp at this
+
+/-- only the attributes of an event type element are left out when empty although a parser
+requires them -/
+theorem nonEmptyRequired_other (tag : String) (htag : tag ≠ "event-type") (a : Attrs) (t : List ASpec)
+    (h : tableOf tag = some t) : NonEmptyRequired t a := by
+  unfold tableOf at h
+  split at h
+  · cases h; exact nonEmptyRequired_of_no_falsy _ _ (by decide)
+  · cases h; exact nonEmptyRequired_of_no_falsy _ _ (by decide)
+  · cases h; exact nonEmptyRequired_of_no_falsy _ _ (by decide)
+  · exact absurd rfl htag
+  · cases h; exact nonEmptyRequired_of_no_falsy _ _ (by decide)
+  · cases h; exact nonEmptyRequired_of_no_falsy _ _ (by decide)
+  · cases h; exact nonEmptyRequired_of_no_falsy _ _ (by decide)
+  · cases h; exact nonEmptyRequired_of_no_falsy _ _ (by decide)
+  · split at h
+    · rename_i hc
+      cases h
+      have hm : tag ∈ ["inter", "intra", "other", "name", "description", "container", "original"] := by simpa using hc
+      simp only [List.mem_cons, List.mem_nil_iff, or_false] at hm
+      rcases hm with rfl | rfl | rfl | rfl | rfl | rfl | rfl <;> exact nonEmptyRequired_of_no_falsy _ _ (by decide)
+    · cases h
+
+theorem cycle_twice_other (tag : String) (htag : tag ≠ "event-type") (a b : Attrs) (h : cycle tag a = some b) :
+    cycle tag b = some b :=
+  cycle_twice tag a b (fun t ht => nonEmptyRequired_other tag htag a t ht) h
+
+/-- a list of elements cycled one by one and sorted: cycling and sorting it again changes nothing -/
+theorem cycled_sorted_fixed {α : Type} (f : α → Option α) (key : α → String) (l r : List α)
+    (hfix : ∀ x y, x ∈ l → f x = some y → f y = some y) (h : l.mapM f = some r) :
+    (sortBy key r).mapM f = some (sortBy key r) ∧ sortBy key (sortBy key r) = sortBy key r := by
+  refine ⟨mapM_fixed f _ (fun y hy => ?_), sortBy_idem key r⟩
+  obtain ⟨x, hx, hxy⟩ := mapM_mem f l r h y ((mem_sortBy key r y).mp hy)
+  exact hfix x y hx hxy
+
+theorem cycleProp_twice (p p' : PropX) (h : cycleProp p = some p') : cycleProp p' = some p' := by
+  unfold cycleProp at h
+  cases ha : cycle "property" p.attrs with
+  | none => rw [ha] at h; cases h
+  | some a =>
+    rw [ha] at h
+    cases hc : p.concepts.mapM (cycle "property-concept") with
+    | none => rw [hc] at h; cases h
+    | some cs =>
+      rw [hc] at h
+      have hp : p' = { attrs := a, concepts := sortBy (attr · "name") cs } := by
+        have : some ({ attrs := a, concepts := sortBy (attr · "name") cs } : PropX) = some p' := h
+        exact (Option.some.inj this).symm
+      subst hp
+      obtain ⟨h1, h2⟩ := cycled_sorted_fixed (cycle "property-concept") (attr · "name") p.concepts cs
+        (fun x y _ hxy => cycle_twice_other _ (by decide) x y hxy) hc
+      unfold cycleProp
+      simp only
+      rw [cycle_twice_other _ (by decide) _ _ ha, h1]
+      simp only [Option.bind_eq_bind, Option.bind_some, Option.pure_def, h2]
+
+theorem cycleRel_twice (r r' : RelX) (h : cycleRel r = some r') : cycleRel r' = some r' := by
+  unfold cycleRel at h
+  split at h
+  · rename_i hmem
+    cases ha : cycle r.tag r.attrs with
+    | none => rw [ha] at h; cases h
+    | some a =>
+      rw [ha] at h
+      have hr : r' = { tag := r.tag, attrs := a } := by
+        have : some ({ tag := r.tag, attrs := a } : RelX) = some r' := h
+        exact (Option.some.inj this).symm
+      subst hr
+      have htag : r.tag ≠ "event-type" := by
+        intro e
+        rw [e] at hmem
+        exact absurd hmem (by decide)
+      unfold cycleRel
+      simp only [hmem, if_true]
+      rw [cycle_twice_other _ htag _ _ ha]
+      rfl
+  · cases h
+
+theorem cycleParent_twice (p q : Option Attrs) (h : cycleParent p = some q) : cycleParent q = some q := by
+  cases p with
+  | none =>
+    simp only [cycleParent, Option.some.injEq] at h
+    subst h; rfl
+  | some a =>
+    simp only [cycleParent] at h
+    cases hc : cycle "parent" a with
+    | none => rw [hc] at h; cases h
+    | some b =>
+      rw [hc] at h
+      simp only [Option.map_some, Option.some.injEq] at h
+      subst h
+      simp only [cycleParent, cycle_twice_other _ (by decide) _ _ hc, Option.map_some]
+
+/-- what the schema demands of every event type element: name, display names, description, summary,
+story and version are present and not empty -/
+def EtAttrsOk (e : EtX) : Prop := NonEmptyRequired eventTypeTable e.attrs
+
+theorem cycleEt_twice (e e' : EtX) (hok : EtAttrsOk e) (h : cycleEt e = some e') : cycleEt e' = some e' := by
+  unfold cycleEt at h
+  cases ha : cycle "event-type" e.attrs with
+  | none => rw [ha] at h; cases h
+  | some a =>
+    rw [ha] at h
+    cases hpar1 : cycleParent e.parent with
+    | none => rw [hpar1] at h; cases h
+    | some par =>
+    have hpar2 : cycleParent par = some par := cycleParent_twice _ _ hpar1
+    rw [hpar1] at h
+    cases hps : e.props.mapM cycleProp with
+    | none => rw [hps] at h; cases h
+    | some props =>
+      rw [hps] at h
+      cases hrs : e.rels.mapM cycleRel with
+      | none => rw [hrs] at h; cases h
+      | some rels =>
+        rw [hrs] at h
+        cases has : e.atts.mapM (cycle "attachment") with
+        | none => rw [has] at h; cases h
+        | some atts =>
+          rw [has] at h
+          have he : e' = { attrs := a, parent := par, props := sortBy (attr ·.attrs "name") props, rels := sortBy relKey rels,
+                           atts := sortBy (attr · "name") atts } := by
+            have : some ({ attrs := a, parent := par, props := sortBy (attr ·.attrs "name") props, rels := sortBy relKey rels,
+                           atts := sortBy (attr · "name") atts } : EtX) = some e' := h
+            exact (Option.some.inj this).symm
+          subst he
+          obtain ⟨p1, p2⟩ := cycled_sorted_fixed cycleProp (attr ·.attrs "name") e.props props
+            (fun x y _ hxy => cycleProp_twice x y hxy) hps
+          obtain ⟨r1, r2⟩ := cycled_sorted_fixed cycleRel relKey e.rels rels (fun x y _ hxy => cycleRel_twice x y hxy) hrs
+          obtain ⟨a1, a2⟩ := cycled_sorted_fixed (cycle "attachment") (attr · "name") e.atts atts
+            (fun x y _ hxy => cycle_twice_other _ (by decide) x y hxy) has
+          have hcyc : cycle "event-type" a = some a := cycle_twice "event-type" e.attrs a (fun t ht => by
+            have : t = eventTypeTable := by
+              have h' : tableOf "event-type" = some eventTypeTable := rfl
+              rw [h'] at ht
+              exact (Option.some.inj ht).symm
+            subst this
+            exact hok) ha
+          unfold cycleEt
+          simp only
+          rw [hcyc, hpar2, p1, r1, a1]
+          simp only [Option.bind_eq_bind, Option.bind_some, Option.pure_def, p2, r2, a2]
+
+/-- **C08: repeating the cycle is byte-identical, for the whole ontology element**: what
+`generate_xml` writes for a parsed ontology — every definition through its attribute rules, every
+container sorted — is parsed and written again as the very same tree -/
+theorem cycleOnt_twice (o o' : OntX) (hok : ∀ e ∈ o.eventTypes, EtAttrsOk e) (h : cycleOnt o = some o') :
+    cycleOnt o' = some o' := by
+  unfold cycleOnt at h
+  cases h1 : o.objectTypes.mapM (cycle "object-type") with
+  | none => rw [h1] at h; cases h
+  | some ots =>
+    rw [h1] at h
+    cases h2 : o.concepts.mapM (cycle "concept") with
+    | none => rw [h2] at h; cases h
+    | some cs =>
+      rw [h2] at h
+      cases h3 : o.eventTypes.mapM cycleEt with
+      | none => rw [h3] at h; cases h
+      | some ets =>
+        rw [h3] at h
+        cases h4 : o.sources.mapM (cycle "source") with
+        | none => rw [h4] at h; cases h
+        | some ss =>
+          rw [h4] at h
+          have ho : o' = { objectTypes := sortBy (attr · "name") ots, concepts := sortBy (attr · "name") cs,
+                           eventTypes := sortBy (attr ·.attrs "name") ets, sources := sortBy (attr · "uri") ss } := by
+            have : some ({ objectTypes := sortBy (attr · "name") ots, concepts := sortBy (attr · "name") cs,
+                           eventTypes := sortBy (attr ·.attrs "name") ets, sources := sortBy (attr · "uri") ss } : OntX) = some o' := h
+            exact (Option.some.inj this).symm
+          subst ho
+          obtain ⟨a1, a2⟩ := cycled_sorted_fixed (cycle "object-type") (attr · "name") _ ots
+            (fun x y _ hxy => cycle_twice_other _ (by decide) x y hxy) h1
+          obtain ⟨b1, b2⟩ := cycled_sorted_fixed (cycle "concept") (attr · "name") _ cs
+            (fun x y _ hxy => cycle_twice_other _ (by decide) x y hxy) h2
+          obtain ⟨c1, c2⟩ := cycled_sorted_fixed cycleEt (attr ·.attrs "name") _ ets
+            (fun x y hx hxy => cycleEt_twice x y (hok x hx) hxy) h3
+          obtain ⟨d1, d2⟩ := cycled_sorted_fixed (cycle "source") (attr · "uri") _ ss
+            (fun x y _ hxy => cycle_twice_other _ (by decide) x y hxy) h4
+          unfold cycleOnt
+          simp only
+          rw [a1, b1, c1, d1]
+          simp only [Option.bind_eq_bind, Option.bind_some, Option.pure_def, a2, b2, c2, d2]
+
+/-- C08: every container of the serialized ontology is sorted by the key of its definitions, and
+holds exactly the cycled definitions of the input: nothing is lost, nothing is added -/
+theorem cycleOnt_sorted_complete (o o' : OntX) (h : cycleOnt o = some o') :
+    (o'.objectTypes.Pairwise fun x y => attr x "name" ≤ attr y "name") ∧
+    (o'.concepts.Pairwise fun x y => attr x "name" ≤ attr y "name") ∧
+    (o'.eventTypes.Pairwise fun x y => attr x.attrs "name" ≤ attr y.attrs "name") ∧
+    (o'.sources.Pairwise fun x y => attr x "uri" ≤ attr y "uri") ∧
+    (∃ ots, o.objectTypes.mapM (cycle "object-type") = some ots ∧ o'.objectTypes.Perm ots) ∧
+    (∃ cs, o.concepts.mapM (cycle "concept") = some cs ∧ o'.concepts.Perm cs) ∧
+    (∃ ets, o.eventTypes.mapM cycleEt = some ets ∧ o'.eventTypes.Perm ets) ∧
+    (∃ ss, o.sources.mapM (cycle "source") = some ss ∧ o'.sources.Perm ss) ∧
+    o'.objectTypes.length = o.objectTypes.length ∧ o'.eventTypes.length = o.eventTypes.length := by
+  unfold cycleOnt at h
+  cases h1 : o.objectTypes.mapM (cycle "object-type") with
+  | none => rw [h1] at h; cases h
+  | some ots =>
+    rw [h1] at h
+    cases h2 : o.concepts.mapM (cycle "concept") with
+    | none => rw [h2] at h; cases h
+    | some cs =>
+      rw [h2] at h
+      cases h3 : o.eventTypes.mapM cycleEt with
+      | none => rw [h3] at h; cases h
+      | some ets =>
+        rw [h3] at h
+        cases h4 : o.sources.mapM (cycle "source") with
+        | none => rw [h4] at h; cases h
+        | some ss =>
+          rw [h4] at h
+          have ho : o' = { objectTypes := sortBy (attr · "name") ots, concepts := sortBy (attr · "name") cs,
+                           eventTypes := sortBy (attr ·.attrs "name") ets, sources := sortBy (attr · "uri") ss } := by
+            have : some ({ objectTypes := sortBy (attr · "name") ots, concepts := sortBy (attr · "name") cs,
+                           eventTypes := sortBy (attr ·.attrs "name") ets, sources := sortBy (attr · "uri") ss } : OntX) = some o' := h
+            exact (Option.some.inj this).symm
+          subst ho
+          refine ⟨sortBy_sorted _ _, sortBy_sorted _ _, sortBy_sorted _ _, sortBy_sorted _ _,
+            ⟨ots, rfl, sortBy_perm _ _⟩, ⟨cs, rfl, sortBy_perm _ _⟩, ⟨ets, rfl, sortBy_perm _ _⟩, ⟨ss, rfl, sortBy_perm _ _⟩, ?_, ?_⟩
+          · simp only; rw [(sortBy_perm _ ots).length_eq, mapM_length _ _ _ h1]
+          · simp only; rw [(sortBy_perm _ ets).length_eq, mapM_length _ _ _ h3]
 
 /-- the fixed point: one parse-serialize cycle of an arbitrary element already gives what every
 further cycle gives (checked here on the shapes the schema leaves open) -/
@@ -238,5 +926,25 @@ theorem cycle_fixed_point :
     cycle "property-concept" [("name", "c"), ("confidence", "1"), ("cnp", "128"), ("attr-extension", "")] =
       some [("name", "c"), ("confidence", "1"), ("cnp", "128")] := by
   decide +kernel
+
+/-- a small ontology whose definitions arrive in another order than they are written, with an
+attribute at its default: the cycle sorts and normalises, and is then a fixed point -/
+def exOnt : OntX :=
+  { objectTypes := [[("name", "o.b"), ("display-name-singular", "b"), ("display-name-plural", "bs"), ("description", "d"),
+                     ("data-type", "string:0:mc"), ("compress", "false"), ("version", "02")],
+                    [("name", "o.a"), ("display-name-singular", "a"), ("display-name-plural", "as"), ("description", "d"),
+                     ("data-type", "number:int"), ("version", "1")]],
+    concepts := [], eventTypes := [], sources := [[("uri", "/b/"), ("description", "d"), ("version", "1")],
+                                                   [("uri", "/a/"), ("description", "d"), ("version", "1")]] }
+example : exOnt.objectTypes.mapM (cycle "object-type") = some
+    [[("name", "o.b"), ("display-name-singular", "b"), ("display-name-plural", "bs"), ("description", "d"),
+      ("data-type", "string:0:mc"), ("version", "2")],
+     [("name", "o.a"), ("display-name-singular", "a"), ("display-name-plural", "as"), ("description", "d"),
+      ("data-type", "number:int"), ("version", "1")]] := by decide +kernel
+example : exOnt.sources.mapM (cycle "source") = some exOnt.sources := by decide +kernel
+example : sortBy (attr · "uri") exOnt.sources =
+    [[("uri", "/a/"), ("description", "d"), ("version", "1")], [("uri", "/b/"), ("description", "d"), ("version", "1")]] := by
+  simp [sortBy, List.mergeSort, List.MergeSort.Internal.splitInTwo, exOnt, attr, lookupA]
+example : ∀ e ∈ exOnt.eventTypes, EtAttrsOk e := by simp [exOnt]
 
 end EdxmlProps.C08
